@@ -223,7 +223,7 @@ func (s *Slicer) walk(v ssa.Value, via []string, depth int, seen map[string]bool
 	case *ssa.Field:
 		name := fmt.Sprintf("#%d", x.Field)
 		if st, ok := x.X.Type().Underlying().(*types.Struct); ok {
-			name = st.Field(x.Field).Name()
+			name = canonField(st, x.Field)
 		}
 		s.walk(x.X, prepend(via, "."+name), depth, seen, out, n+1)
 	case *ssa.Index:
